@@ -97,6 +97,7 @@ type vfUnit struct {
 	tmp     string
 	t       *testing.T
 	skipCases map[int]bool
+	budget    map[string]int
 }
 
 // Case journals case idx of this unit (so that a process death is attributed to
@@ -219,6 +220,18 @@ func (u *vfUnit) Inconclusive(format string, a ...any) {
 		u.res.Inconclusive = append(u.res.Inconclusive, fmt.Sprintf(format, a...))
 	}
 	u.mu.Unlock()
+}
+
+// Budget reports whether an expensive oracle (e.g. one that ends in a stuck-state
+// verdict, which costs seconds) may still be used: true for the first n calls per name.
+func (u *vfUnit) Budget(name string, n int) bool {
+	u.mu.Lock()
+	defer u.mu.Unlock()
+	if u.budget == nil {
+		u.budget = map[string]int{}
+	}
+	u.budget[name]++
+	return u.budget[name] <= n
 }
 
 // TempDir returns a per-unit scratch directory (removed when the unit ends).
